@@ -963,9 +963,12 @@ func (c *c06) foreignCallWrites(fd *ast.FuncDecl, name string, isCopy func(ast.E
 		if c06PureFuncs[fn] {
 			return true
 		}
-		for _, a := range call.Args {
+		for ai, a := range call.Args {
 			if _, isFn := a.(*ast.FuncLit); isFn {
 				continue
+			}
+			if (fn == "copy" || fn == "append") && ai > 0 {
+				continue // only the destination is written: copy(dst, shared) / append(local, shared...) read
 			}
 			if !c.refLike(a) {
 				continue
